@@ -13,11 +13,14 @@ REBASED = {"C02b": "context moved by the C16 fix (3a127e2)", "C05b": "rewritten 
            "C16b": "rewritten onto the C05 fix (1dd3dce)", "C18b": "rewritten onto the C18 fix (35c15b3)",
            "C19a": "rewritten onto the C19 fix (080f984)", "C19b": "rewritten onto the C19 fix (080f984)",
            "C15b": "rewritten onto the C15 fix (23b5ba4)"}
-ROUND2 = {"C16a", "C16c"}
+ROUND2 = {"C16a", "C16c"} | {p + v for p in ("C01", "C04", "C08", "C11", "C12", "C15", "C17", "C19") for v in "cd"}
 NOTES = {
     "C03b": "correct over the reals, wrong only through binary64 rounding: invisible in real mode (DESIGN 11.3)",
     "C08b": "correct over the reals, wrong only through binary64 rounding: invisible in real mode (DESIGN 11.3)",
     "C11b": "correct over the reals, wrong only through binary64 rounding: invisible in real mode (DESIGN 11.3)",
+    "C01c": "correct over the reals (the cosine never leaves [-1, 1] in exact arithmetic), NaN only through binary64 rounding: invisible in real mode (DESIGN 11.3)",
+    "C12d": "the one-pass variance equals the two-pass one over the reals (cancellation is a rounding effect): the intended defect is invisible in real mode; "
+            "what C12 reports is a side effect of the same edit (ZeroDivisionError instead of nan for an empty error array)",
     "C09a": "the changed code path is executed by the facade; the half-turn case is a poison (division by sin = 0) path whose "
             "reachability the solver does not decide within the budget, the generic path needs |vee(R-R^T)| = 2 sin: inconclusive",
     "C10a": "the solver finds a counterexample sitting exactly on a threshold; it does not reproduce in binary64: exit 3, no VIOLATION line",
